@@ -32,6 +32,8 @@ structure St where
   pendUnk : Bool := false
   pendEp : Option Endpoint := none
   pendMay : Bool := false
+  pendDelivered : Bool := false   -- does the protocol hand this datagram to its callbacks?
+  proto : String := "on"          -- constructor configuration of the endpoint's SsdpProtocol: on | async | both
   corrOk : Bool := true
   judgeOk : Bool := true
   notes : List String := []
@@ -89,7 +91,7 @@ def stepOp (st : St) (toks : List String) : St :=
       pure { prefixes := Gen.C01Ssdp.ssdpPrefixes, trk := { C03.genCfg with tMax := C02.dtMax }, targetHost := (tokB tgt).getD [], rootUdn := (tokB root).getD [],
              devices := devs, services := svcs, alwaysRoot := always == "1" }
     match r with
-    | some c => { st with cfg := c }
+    | some c => { st with cfg := c, proto := (f "proto").getD "on" }
     | none => corrFail st "bad cfg line"
   | "dg" :: ep :: dat :: src :: loc :: now :: flags =>
     match parseEp ep, tokB dat, parseAddr src, parseOptAddr loc, now.toInt? with
@@ -107,7 +109,8 @@ def stepOp (st : St) (toks : List String) : St :=
         | .ok (some (_, h)) => if udnGuaranteeB h then st else corrFail st "interface: _udn is not the udn of the uuid USN"
         | _ => st
       { st with pendRes := some (recv genFixes st.cfg ep st.tr dat loc src now),
-                pendClass := classify st.cfg ep dat loc src now, pendUnk := unk, pendEp := some ep, pendMay := mayDrop st.cfg ep dat loc src now }
+                pendClass := classify st.cfg ep dat loc src now, pendUnk := unk, pendEp := some ep,
+                pendDelivered := (match dec with | .ok (some _) => true | _ => false), pendMay := mayDrop st.cfg ep dat loc src now }
     | _, _, _, _, _ => corrFail st "bad dg line"
   | "eff" :: rest =>
     let f := kvs rest
@@ -135,6 +138,18 @@ def stepOp (st : St) (toks : List String) : St :=
                   else if st.pendClass.isSome then "well-formed-but-not-dispatched" else "dropped-but-not-inert"
       let st := if verdict then st
                 else judgeFail st s!"{what} class={repr st.pendClass} cb={cb} sends={sends} timers={timers} before={before.length} after={after.length}"
+      -- delivery to all configured sinks: with both `on_data` and `async_on_data` configured each gets every message
+      let (ds, da) := match ((f "dl").getD "0:0").splitOn ":" with
+        | [a, b] => (a.toNat?.getD 0, b.toNat?.getD 0)
+        | _ => (0, 0)
+      let st := if st.proto = "both" && ds != da && raised = "-" then
+                  judgeFail st s!"a configured callback missed the message: on_data={ds} async_on_data={da}"
+                else st
+      let want := if st.pendDelivered then 1 else 0
+      let st := if st.pendUnk || st.desync || raised != "-" then st
+                else if (st.proto != "async" && ds != want) || (st.proto != "on" && da != want) then
+                  corrFail st s!"delivery impl on_data={ds} async_on_data={da} model={want} ({st.proto})"
+                else st
       -- correspondence (skipped once the model's tracker state is no longer the implementation's)
       if st.pendUnk then note { st with desync := true } "unmodelled-url"
       else if st.desync then st
